@@ -241,6 +241,19 @@ def c02(tier, rng):
                     b.step('recv', c=1, n=cnt + 1)
                 b.step('trl', c=1)
                 out.append(b.q().done())
+    # all-default (empty) messages interleaved with non-empty ones, both directions (receivers reuse one message object)
+    for kind in ('bidi', 'cs', 'ss'):
+        for pat in (['a', '', 'b', '', ''], ['', 'x', ''], ['', ''], ['p', '', 'q']):
+            b = B('C02', '%s empty/non-empty pattern %s' % (kind, '|'.join(x or '0' for x in pat)), ser=True)
+            cm = pat if kind != 'ss' else pat[:1]
+            hm = pat if kind != 'cs' else pat[:1]
+            b.step('sopen', c=1, kind=kind, hp=[dict(o='drain')] + [dict(o='send', pay=x) for x in hm] + [ret()])
+            for x in cm:
+                b.step('send', c=1, pay=x)
+            b.step('close', c=1)
+            b.step('recv', c=1, n=len(hm) + 1)
+            b.step('trl', c=1)
+            out.append(b.q().done())
     # several streams multiplexed on one connection
     for k in ([2, 5] if tier == 'quick' else [2, 3, 8, 16, 32]):
         for rep in range(2 if tier == 'quick' else 6):
@@ -321,6 +334,23 @@ def c03(tier, rng, fam='C03'):
                 b = B(fam, 'unary code=%d ek=%s det=%d' % (code2, ek2 or 'nil', det), ser=bool(code % 2))
                 b.step('ucall', c=1, pay='q', hp=[ret(code=code2, msg=msg, ek=ek2 if ek2 != 'status' else '', det=det, pay='rep')])
                 out.append(b.q().done())
+    # successful unary calls whose request and/or reply encode to zero bytes
+    for rq in ('', 'q'):
+        for rp in ('', 'p'):
+            b = B(fam, 'unary ok, request %s, reply %s' % ('empty' if not rq else 'non-empty', 'empty' if not rp else 'non-empty'), ser=bool(rq))
+            b.step('ucall', c=1, pay=rq, hp=[ret(pay=rp)])
+            out.append(b.q().done())
+    # the connection is reported closed with io.EOF (as net.Pipe / TCP transports do) in the middle of a stream:
+    # that is a failure, not an end of stream
+    for kind in ('bidi', 'ss'):
+        for nread in (0, 1):
+            b = B(fam, '%s transport io.EOF after %d responses' % (kind, nread), ser=True)
+            b.step('sopen', c=1, kind=kind, hp=[dict(o='recv'), dict(o='send', pay='r0'), dict(o='ctxwait'), ret(code=1, msg='gone')])
+            b.step('send', c=1, pay='x')
+            b.step('recv', c=1, n=nread)
+            b.step('fault', what='creadeof')
+            b.step('recv', c=1, n=2)
+            out.append(b.q().done())
     # streams: error at each position
     for kind in ('bidi', 'cs', 'ss'):
         for pos in (0, 1, 2):
